@@ -55,6 +55,7 @@ def key_of(ts, types, style):
         return tuple(names)
     if style == 'array':
         return np.array(names) if all(isinstance(x, str) for x in names) or all(not isinstance(x, str) for x in names) else list(names)
+    if style == 'iter': return iter(list(names))          # a one-shot iterable (generator, reversed(), map()) is a legal list key
     return list(names)
 
 def suite_history(ctx, case):
@@ -136,7 +137,7 @@ def gen_case(rng, max_ops):
     n = rng.choice([1, 2, 2, 3, 3, 4])
     ops = []
     for _ in range(rng.randint(1, max_ops)):
-        style = rng.choice(['single', 'single', 'list', 'tuple', 'array'])
+        style = rng.choice(['single', 'single', 'list', 'tuple', 'array', 'iter'])
         if style == 'single':
             ts = [rng.randrange(n)]
         else:
@@ -145,6 +146,7 @@ def gen_case(rng, max_ops):
         isint = rng.random() < 0.15
         v = float(rng.randint(1, 5)) if isint else round(rng.choice([rng.uniform(0.01, 2.0), 10 ** rng.uniform(-6, 3)]), rng.randint(2, 12))
         if v <= 0: v = 0.5
+        if kind == 'dens' and rng.random() < 0.08: v = 0.0; isint = False          # a component with density exactly zero is an assigned value like any other
         # sweeps: re-assignments close to (or in the dilute regime far below any absolute tolerance of) an earlier value of the same kind
         prev = [o['v'] for o in ops if o['kind'] == kind]
         c = rng.random()
